@@ -27,8 +27,8 @@ MANIFEST = {
 
 FORMATS = ["h5", "xtc", "trr", "dcd", "nc", "mdcrd", "xyz", "xyz.gz", "lammpstrj", "gro", "pdb", "pdb.gz", "dtr", "arc"]
 HAS_TOP = {"h5", "pdb", "pdb.gz", "lh5", "gro", "arc"}
-NATOMS = 6
-AI_MENU = [None, [0], [1, 3], [1, 2, 3, 4, 5]]
+NATOMS = 8
+AI_MENU = [None, [0], [1, 3], [0, 2, 3, 6], [1, 2, 3, 4, 5, 6, 7]]
 
 
 def _ref_traj(n_frames, seed):
@@ -36,13 +36,13 @@ def _ref_traj(n_frames, seed):
     rng = np.random.RandomState(77 + seed)
     top = md.Topology()
     ch = top.add_chain()
-    names = ["N", "CA", "C", "O", "CB", "H"]
+    names = ["N", "CA", "C", "O", "CB", "H", "HA", "OXT"]
     els = [md.element.nitrogen, md.element.carbon, md.element.carbon, md.element.oxygen, md.element.carbon,
-           md.element.hydrogen]
+           md.element.hydrogen, md.element.hydrogen, md.element.oxygen]
     for r in range(2):
         res = top.add_residue("ALA" if r == 0 else "GLY", ch)
-        for i in range(3):
-            top.add_atom(names[r * 3 + i], els[r * 3 + i], res)
+        for i in range(4):
+            top.add_atom(names[r * 4 + i], els[r * 4 + i], res)
     xyz = np.round(rng.rand(n_frames, NATOMS, 3) * 2 + 0.1 * np.arange(n_frames)[:, None, None], 3).astype(np.float32)
     return md.Trajectory(xyz, top, time=np.arange(n_frames, dtype=float) * 2.0,
                          unitcell_lengths=np.round(np.full((n_frames, 3), 4.0) + 0.125 * np.arange(n_frames)[:, None], 3),
@@ -182,7 +182,13 @@ def run_format(args):
     def judge_traj(got, exp):
         return _cmp(got, exp, "result")
     judge = judge_traj
-    for s, ai in itertools.product(range(1, smax + 1), ai_menu):
+    # md.load: EVERY strictly increasing atom subset of the first 8 atoms (255) x stride {1, 2}, plus the menu at
+    # the larger strides
+    nsub = min(natoms, NATOMS)
+    all_subsets = [[i for i in range(nsub) if (m >> i) & 1] for m in range(1, 2 ** nsub)]
+    load_axis = [(s, ai) for s in (1, 2) for ai in all_subsets if s <= smax] + \
+                [(s, ai) for s, ai in itertools.product(range(1, smax + 1), ai_menu) if ai is None or s > 2]
+    for s, ai in load_axis:
         check("load", {"stride": s, "atom_indices": ai},
               lambda: md.load(p, stride=s, atom_indices=ai, **kw), lambda: _slice(full, 0, s, ai),
               _flags(**{"stride>1": s > 1, "ai": ai is not None}))
@@ -262,7 +268,7 @@ def run(ctx):
         "rule": "complete product of the axes below per format; a case is counted non-trivial/distinct when its "
                 "(entry point, parameters) is new for that format and the comparison against the slicing oracle passed",
         "samples": samples[:5], "exhaustive": True,
-        "axes": {"formats": FORMATS, "n_frames": ns, "atom_indices": AI_MENU,
+        "axes": {"formats": FORMATS, "n_frames": ns, "atom_indices": AI_MENU, "atom_indices_for_load": "every non-empty strictly increasing subset of 8 atoms",
                  "stride": "1..min(3,N+1)" if ctx.quick else "1..N+1", "chunk": "0..min(4,N+1)" if ctx.quick else "0..N+1",
                  "skip": "0..min(2,N)" if ctx.quick else "0..N", "file_lists": "1..3"},
         "distinct_outcomes": len(outcomes),
